@@ -300,6 +300,13 @@ def rk4_startup(F, solver_prefix, fields, O):
             continue
         if after:
             it.run_stmt(s_)
+    tail = body["body"].get("expr")
+    if after and tail is not None:
+        # the function's tail expression (e.g. a helper that records the final point and whose Result is returned as is)
+        try:
+            it.ev(tail)
+        except sym.Return:
+            pass
     out["after"] = {"log": list(log), "calls": list(it.user_calls)}
     return out
 
